@@ -210,6 +210,9 @@ func (en *Env) eval(e Expr) Term {
 			body := sub.eval(x.Body)
 			en.wantBool(body, x.Body)
 			in := and(not(app("=", m.S, "0")), app("select", app("select", c.heapGet(en.cur, mapDomKey(m.Ty)), m.S), v))
+			if !x.All {
+				return Term{fmt.Sprintf("(exists ((%s %s)) %s)", v, ks, and(in, body.S)), SBool, tBool}
+			}
 			return Term{fmt.Sprintf("(forall ((%s %s)) %s)", v, ks, implies(in, body.S)), SBool, tBool}
 		}
 		lo := en.eval(x.Lo)
